@@ -103,6 +103,94 @@ def judge(stream: list[dict], batch_size: int, time_buffer: int, wd: str, tag: s
     return "held", None, info
 
 
+def judge_pipeline(stream: list[dict], batch_size: int, time_buffer: int, wd: str, tag: str,
+                   unique: bool, rng: random.Random) -> tuple[str, dict | None, dict]:
+    """The same store driven through the real otel_to_pv(config, ingest_data=True[, unique
+    graphs]) from JSON files into a database file - i.e. with the cleaning steps in whatever
+    order and combination the pipeline itself runs them."""
+    import shutil
+    import sqlite3
+    from vlib import otelgen
+    from tel2puml.otel_to_pv.config import IngestDataConfig
+    from tel2puml.otel_to_pv.otel_to_pv import otel_to_pv
+    info: dict = {}
+    win = store.window_of(stream, time_buffer)
+    model0 = store.model_first_wins(stream)
+    d = os.path.join(wd, "pipe-" + tag)
+    os.makedirs(d, exist_ok=True)
+    try:
+        docs = otelgen.spans_to_documents(stream, rng, nfiles=rng.randint(1, 3))
+        otelgen.write_dataset(os.path.join(d, "in"), docs)
+        db = os.path.join(d, "store.db")
+        cfg = otelgen.write_config(os.path.join(d, "cfg.yaml"), os.path.join(d, "in"),
+                                   "sqlite:///" + db, batch_size, time_buffer)
+        try:
+            gen = otel_to_pv(IngestDataConfig(**cfg), ingest_data=True, find_unique_graphs=unique)
+            jobs: dict[str, set] = {}
+            for name, streams in gen:
+                for st in streams:
+                    evs = list(st)
+                    if evs:
+                        jobs[evs[0]["jobId"]] = {e["eventId"] for e in evs}
+        except ValueError as exc:
+            if win is None and "time buffer" in str(exc).lower():
+                return "held-documented-error", None, info
+            raise
+        finally:
+            store.forget_temp_table()
+        if win is None:
+            return "violated:no-error-for-too-large-time-buffer", None, info
+        want = store.model_clean(model0, win)
+        con = sqlite3.connect(db)
+        try:
+            rows = con.execute(
+                "SELECT job_name, job_id, event_type, event_id, start_timestamp, end_timestamp, "
+                "application_name, parent_event_id FROM nodes").fetchall()
+        finally:
+            con.close()
+        after = {r[3]: dict(zip(store.FIELDS, r)) for r in rows}
+        dd = store.diff_nodes(after, want)
+        info["pipeline_survivors"] = len({s["job_id"] for s in want.values()})
+        info["pipeline_removed"] = len({s["job_id"] for s in model0.values()}) - \
+            info["pipeline_survivors"]
+        if dd:
+            sym = "trace-not-removed" if dd["extra"] else (
+                "intact-trace-touched:span-deleted" if dd["missing"] else
+                "workflow-name-or-field-wrong")
+            return "violated:pipeline:" + sym, dd, info
+        surv: dict[str, set] = {}
+        for sp in want.values():
+            surv.setdefault(sp["job_id"], set()).add(sp["event_id"])
+        if not unique:
+            if jobs != surv:
+                return "violated:pipeline:pv-jobs-differ-from-survivors", {
+                    "missing": sorted(set(surv) - set(jobs))[:5],
+                    "extra": sorted(set(jobs) - set(surv))[:5]}, info
+        else:
+            shapes_all = {}
+            for jid in surv:
+                spans = [sp for sp in want.values() if sp["job_id"] == jid]
+                shapes_all.setdefault((spans[0]["job_name"], repr(store.shape_of(spans))),
+                                      set()).add(jid)
+            for key, members in shapes_all.items():
+                n_sel = len(members & set(jobs))
+                if n_sel != 1:
+                    return "violated:pipeline:shape-representatives", {
+                        "shape": key[1][:200], "name": key[0], "selected": n_sel}, info
+            if not set(jobs) <= set(surv):
+                return "violated:pipeline:removed-trace-sequenced", {
+                    "extra": sorted(set(jobs) - set(surv))[:5]}, info
+            for jid in jobs:
+                if jobs[jid] != surv[jid]:
+                    return "violated:pipeline:pv-job-has-other-spans", {"job": jid}, info
+        info["pipeline_jobs"] = len(jobs)
+    except Exception as exc:
+        return f"violated:pipeline:exception:{type(exc).__name__}", {"exc": repr(exc)[:300]}, info
+    finally:
+        shutil.rmtree(d, ignore_errors=True)
+    return "held", None, info
+
+
 def gen_case(rng: random.Random) -> tuple[list[dict], int, int, dict]:
     names = rng.sample(["alpha", "beta", "ga mma"], rng.randint(1, 3))
     minutes = rng.choice([3, 10, 30, 60])
@@ -158,6 +246,18 @@ def run_chunk(case: dict) -> dict:
         if v.startswith("violated") and len(fails) < 4:
             fails.append({"symptom": v[9:], "detail": d, "stream": stream, "batch_size": b,
                           "time_buffer": tb, "meta": meta})
+        if idx % 4 == 0:
+            uq = (idx // 4) % 2 == 1
+            v2, d2, info2 = judge_pipeline(stream, b, tb, case["workdir"],
+                                           f"{case['_idx']}-{idx}", uq, rng)
+            n += 1
+            bump("pipeline:" + v2.split(":")[0])
+            bump("pipeline_unique_graph_runs" if uq else "pipeline_plain_runs")
+            bump("pipeline_removed_traces", info2.get("pipeline_removed", 0))
+            bump("pipeline_pv_jobs", info2.get("pipeline_jobs", 0))
+            if v2.startswith("violated") and len(fails) < 4:
+                fails.append({"symptom": v2[9:], "detail": d2, "stream": stream, "batch_size": b,
+                              "time_buffer": tb, "meta": dict(meta, pipeline=True, unique=uq)})
         if not samples and info.get("removed_traces", 0) >= 2 and len(stream) < 25:
             samples.append({"time_buffer_min": tb, "batch_size": b, "kinds": meta["kinds"],
                             "spans": [[s["event_id"], s["parent_event_id"], s["job_name"],
@@ -173,7 +273,9 @@ def main(tier: str, seed: int) -> int:
              "parents (leaf / middle / root missing), inconsistent workflow names, and traces "
              "inside / outside / straddling / touching the buffered window, ingested trace-wise, "
              "interleaved or shuffled with batch sizes {1,2,3,7,1000} and time_buffer "
-             "{0,1,2,5,12,40} min; the three cleaning methods run in the order of otel_to_pv. "
+             "{0,1,2,5,12,40} min; the three cleaning methods run in the order of otel_to_pv, and "
+             "every fourth store additionally goes through the real otel_to_pv pipeline (JSON "
+             "files -> database file -> cleaning -> [unique graphs] -> PV stream). "
              "distinct non-trivial = distinct stores where at least one trace was removed and "
              "at least one survived")
     chk.assumptions = [
@@ -204,12 +306,19 @@ def main(tier: str, seed: int) -> int:
         for f in r["fails"]:
             chk.violation(f["symptom"], f, tags=["cleaning"])
     chk.distinct = {str(i) for i in range(distinct)}
+    if chk.extra.get("pipeline_removed_traces", 0) == 0 or chk.extra.get("pipeline_pv_jobs", 0) == 0:
+        chk.note_inconclusive("the pipeline drive never removed a trace / never produced a job")
     if chk.extra.get("removed_traces", 0) == 0 or chk.extra.get("renamed_spans", 0) == 0:
         chk.note_inconclusive("cleaning never removed a trace / never renamed a span")
     return chk.finish()
 
 
 def run_replay(case: dict) -> dict:
+    if case.get("meta", {}).get("pipeline"):
+        wd = os.path.join(core.work_dir(), "c11r")
+        v, d, info = judge_pipeline(case["stream"], case["batch_size"], case["time_buffer"], wd,
+                                    "r", case["meta"]["unique"], random.Random(0))
+        return {"status": "ok", "verdict": v, "detail": d}
     v, d, info = judge(case["stream"], case["batch_size"], case["time_buffer"], "", "r")
     return {"status": "ok", "verdict": v, "detail": d}
 
